@@ -1,7 +1,8 @@
 (* Props/C03.v — C03: model queries agree with the feature tree they describe.
    Only statements, each closed by [exact] of a lemma proved in Proofs/, with Print Assumptions. *)
 From Coq Require Import List Bool String ZArith Permutation.
-From FM Require Import Model.FM Model.Queries Model.Heap Proofs.FMFacts Proofs.QueriesFacts Proofs.HeapFacts.
+From FM Require Import Base.Result Model.FM Model.Queries Model.Heap Model.PyRt Model.Loc Gen.Src_fm
+     Proofs.FMFacts Proofs.QueriesFacts Proofs.HeapFacts Proofs.SrcFmFacts Proofs.SrcTieC03.
 Import ListNotations.
 Local Open Scope list_scope.
 
@@ -127,6 +128,83 @@ Proof. intros. split; [eapply h_is_mandatory_spec|eapply h_is_optional_spec]; ea
 Print Assumptions C03_pointer_predicates.
 
 (* non-vacuity (a guarded run that MOVES a subtree) and the need for the guard (a feature attached twice) *)
+(* ---- the same about the TRANSLATED SOURCE of Relation / Feature / FeatureModel (Gen/Src_fm.v, regenerated from
+   feature_model.py on every run; DESIGN §10).  A feature OBJECT is a located feature (f, anc): the tree value
+   with its chain of ancestors — the functional reading of a linked object graph (C03_construction_linked). ---- *)
+Theorem C03_source_class_exactly_one : forall r o, card_hyp r -> count_true (src_flags (r, o)) = 1.
+Proof. exact source_class_exactly_one. Qed.
+Print Assumptions C03_source_class_exactly_one.
+
+Theorem C03_source_class_is_function_of_cards : forall r o, card_hyp r ->
+  py_Relation_is_mandatory (r, o) = rclass_eqb (classify r) CMandatory /\
+  py_Relation_is_optional (r, o) = rclass_eqb (classify r) COptional /\
+  py_Relation_is_alternative (r, o) = rclass_eqb (classify r) CAlternative /\
+  py_Relation_is_or (r, o) = rclass_eqb (classify r) COr /\
+  py_Relation_is_mutex (r, o) = rclass_eqb (classify r) CMutex /\
+  py_Relation_is_cardinal (r, o) = rclass_eqb (classify r) CCardinal.
+Proof. exact source_class_is_function_of_cards. Qed.
+Print Assumptions C03_source_class_is_function_of_cards.
+
+Theorem C03_source_features_once : forall m fuel, (fuel_tree (root m) <= fuel)%nat ->
+  exists l, py_FeatureModel_get_features fuel m = Ok l /\ Permutation (map fst l) (subfeatures (root m))
+            /\ List.length l = fsize (root m).
+Proof. exact source_features_once. Qed.
+Print Assumptions C03_source_features_once.
+
+Theorem C03_source_relations_once : forall m fuel, (fuel_tree (root m) <= fuel)%nat ->
+  rmap (map fst) (py_FeatureModel_get_relations fuel m None) = Ok (subrelations (root m)).
+Proof. exact source_relations_once. Qed.
+Print Assumptions C03_source_relations_once.
+
+Theorem C03_source_parent_root : forall m fuel, (fuel_tree (root m) <= fuel)%nat ->
+  exists l, py_FeatureModel_get_features fuel m = Ok l /\
+    forall x, In x l ->
+      match py_Feature_get_parent x with
+      | None => py_Feature_is_root x = true /\ fst x = root m
+      | Some p => py_Feature_is_root x = false /\ In (fst x) (children (fst p)) /\ In (fst p) (subfeatures (root m))
+      end.
+Proof. exact source_parent. Qed.
+Print Assumptions C03_source_parent_root.
+
+Theorem C03_source_lookup : forall m fuel f, (fuel_tree (root m) <= fuel)%nat -> wf_names (root m) = true ->
+  In f (get_features m) ->
+  exists r, py_FeatureModel_get_feature_by_name fuel m (name f) = Ok r /\ option_map fst r = Some f.
+Proof. exact source_lookup. Qed.
+Print Assumptions C03_source_lookup.
+
+Theorem C03_source_lookup_missing : forall m fuel n, (fuel_tree (root m) <= fuel)%nat ->
+  ~ In n (map name (get_features m)) -> py_FeatureModel_get_feature_by_name fuel m n = Ok None.
+Proof. exact source_lookup_missing. Qed.
+Print Assumptions C03_source_lookup_missing.
+
+Theorem C03_source_feature_predicates : forall f anc,
+  py_Feature_is_mandatory (f, anc) = feat_is_mandatory (hd_error anc) f /\
+  py_Feature_is_optional (f, anc) = feat_is_optional (hd_error anc) f /\
+  py_Feature_is_or_group (f, anc) = feat_is_or_group f /\
+  py_Feature_is_alternative_group (f, anc) = feat_is_alternative_group f /\
+  py_Feature_is_mutex_group (f, anc) = feat_is_mutex_group f /\
+  py_Feature_is_cardinality_group (f, anc) = feat_is_cardinality_group f /\
+  py_Feature_is_group (f, anc) = feat_is_group f /\
+  py_Feature_is_multiple_group_decomposition (f, anc) = feat_is_multiple_group_decomposition f /\
+  py_Feature_is_leaf (f, anc) = feat_is_leaf f /\
+  py_Feature_is_boolean (f, anc) = feat_is_boolean f /\
+  py_Feature_is_numerical (f, anc) = feat_is_numerical f /\
+  py_Feature_is_string (f, anc) = feat_is_string f /\
+  py_Feature_is_multifeature (f, anc) = feat_is_multifeature f.
+Proof. exact source_feature_predicates. Qed.
+Print Assumptions C03_source_feature_predicates.
+
+Theorem C03_source_listings : forall m fuel, (fuel_tree (root m) <= fuel)%nat ->
+  (exists l, py_FeatureModel_get_mandatory_features fuel m = Ok l /\ map fst l = get_mandatory_features m) /\
+  (exists l, py_FeatureModel_get_optional_features fuel m = Ok l /\ map fst l = get_optional_features m) /\
+  (exists l, py_FeatureModel_get_alternative_group_features fuel m = Ok l /\ map fst l = get_alternative_group_features m) /\
+  (exists l, py_FeatureModel_get_or_group_features fuel m = Ok l /\ map fst l = get_or_group_features m) /\
+  (exists l, py_FeatureModel_get_boolean_features fuel m = Ok l /\ map fst l = get_boolean_features m) /\
+  (exists l, py_FeatureModel_get_numerical_features fuel m = Ok l /\ map fst l = get_numerical_features m) /\
+  (exists l, py_FeatureModel_get_string_features fuel m = Ok l /\ map fst l = get_string_features m).
+Proof. exact source_listings. Qed.
+Print Assumptions C03_source_listings.
+
 Example C03_construction_nonvacuous :
   guards [] ex_move = true /\ h_parent (run [] ex_move) 1 = Some 2 /\ h_is_mandatory (run [] ex_move) 1 = true
   /\ guards [] ex_shared = false /\ h_children (run [] ex_shared) 0 = [1; 2]%nat /\ h_parent (run [] ex_shared) 1 = Some 2.
